@@ -174,6 +174,9 @@ pub struct Views;
 
 impl Prop for Views {
     type Case = Case;
+    fn input_bytes<'a>(&self, c: &'a mut Self::Case) -> Option<&'a mut Vec<u8>> {
+        Some(&mut c.input.0)
+    }
     fn strategy(&self, _tier: Tier) -> BoxedStrategy<Case> {
         let per = |f: Format| {
             gen::input_and_cap(f, gen::any_input(f, true)).prop_map(move |(input, cap)| Case { format: f, input, cap })
